@@ -55,6 +55,10 @@ T = {
  "C14": ("Static analysis: regular expressions are built only from constants and QuoteMeta'd parts (no raw delimiter/name); INBOX and recovery-mailbox guards dominate the namespace writes; mailboxes_v2.name/remote_id are UNIQUE in the schema SQLite builds from the migrations; every mailbox-name argument handed to the state API originates from decodeMailboxName (incl. the LIST/LSUB reference); Rename does not use non-anchored substring replacement and getMatches always matches a mailbox together with its superiors. Correctness of % / * matching, implicit-parent bookkeeping and the subscription model are not decided.",
          "Trusts go/ssa, SQLite schema introspection, value-origin walk.",
          "value-origin (T-SOURCE) + dominance guards + schema introspection + structural shape rules", "DESIGN.md 4/C14"),
+
+ "C07": ("Static analysis of the ordering/typestate conditions durability rests on: every path that inserts message rows also writes the literal inside the same transaction closure; cache files are deleted only outside transactions and only after the row-deleting transaction committed / after the creating transaction failed / for the set difference with the database; both start-up clean-ups dominate newUser's success return and no run-time query is truncated by LIMIT n>1; *sql.Tx typestate (exactly one Commit/Rollback, Commit only on nil, rollback on panic, no escape); errors of literal writes are propagated. Atomicity of the file write itself (no temp+rename/fsync) and WAL durability settings are runtime matters and are not decided.",
+         "Trusts go/ssa, the VTA call graph, SQLite for statement extraction.",
+         "must-pass-through + dominance-justified effects + typestate on SSA", "DESIGN.md 4/C07"),
 }
 NA_REASON = {}
 checks = []
